@@ -23,6 +23,9 @@ import pytenet as ptn
 from pytenet.bipartite_graph import BipartiteGraph, HopcroftKarp, minimum_vertex_cover
 
 ID = 'C18'
+# termination on every input is part of C18: a graph on which the routines do not return within the limit is a violation
+core.CASE_TIMEOUT_S = 120.0
+core.TIMEOUT_IS_VIOLATION = True
 LEVEL = 'model_checking'
 RULE = ('every edge subset of K_{a,b} within the bounds, every edge sequence with repetition up to the length '
         'bound, parametric families under vertex rotations; a case is non-trivial when the graph has at least '
